@@ -27,6 +27,13 @@ MAP = [  # (substring of the commit subject, property)
  ("WSDL error responses had a str body", "C13"),
  ("xsi:type could substitute a value of any registered class", "C04"),
  ("xsi:type derivation check accepted", "C04"),
+ ("xsi:type could swap one array type for another", "C04"),
+ ("dict protocols handed a float to functions declaring an Integer", "C04"),
+ ("bare methods over the dict protocols crashed on a simple-typed argument", "C10"),
+ ("Date type with a custom format raised AttributeError", "C10"),
+ ("duration too large for timedelta escaped", "C10"),
+ ("JSON request declaring an unknown charset escaped", "C10"),
+ ("attachment lacking Content-ID raised AttributeError", "C10"),
  ("document nodes of the wrong kind escaped", "C04"), ("MessagePack handed booleans, maps and lists", "C04"),
  ("malformed base64 or hex text raised binascii.Error", "C10"),
  ("numbers 0 and 1 were accepted for Boolean", "C04"), ("msgpack-rpc message whose type field is a sequence", "C10"),
